@@ -1261,7 +1261,7 @@ fn expected_probes(prop: &str) -> &'static [&'static str] {
         "C01" => &["back_to_back_stream>=2", "fragmented_length_seen"],
         "C04" => &["read_failed_then_accessors_called", "truncated_delivery", "EINTR_retried"],
         "C05" => &["unknown_addition_present", "unknown_alternative_or_value_selected", "message_longer_than_127_octets"],
-        "C12" => &["reference_local", "reference_import_by_name", "reference_import_by_name_and_oid", "reference_import_by_oid_only", "decoy_same_name_other_oid", "decoy_same_name_no_oid", "decoy_alias_name_no_oid"],
+        "C12" => &["reference_local", "reference_import_by_name", "reference_import_by_name_and_oid", "reference_import_by_oid_only", "reference_import_chain_over_two_modules", "decoy_same_name_other_oid", "decoy_same_name_no_oid", "decoy_alias_name_no_oid"],
         "C14" => &["multi_module_scope", "fault_point_enumeration_modules"],
         "C17" => &["exact_fit_slice", "EINTR_retried", "roundtrip_equal_only_up_to_default_equivalence"],
         "C19" => &["dde_error_carries_description", "fault_free_delivery_compared"],
